@@ -2,8 +2,11 @@
 # scripts/run_all.sh [quick|thorough] : run every registered check on /repo, print one line per property
 TIER="${1:-quick}"
 cd "$(dirname "$0")/.." || exit 2
+WORST=0
 for i in $(seq -w 1 20); do
   OUT=$(./check C$i --tier "$TIER" 2>&1); RC=$?
   echo "C$i exit=$RC $(echo "$OUT" | grep -c '^VIOLATION') violations $(echo "$OUT" | grep -c '^KNOWN-FINDING') known | $(echo "$OUT" | grep "^C$i tier" | sed 's/.*states=/states=/')"
-  [ $RC -ge 2 ] && echo "$OUT" | tail -5
+  if [ $RC -ge 2 ]; then echo "$OUT" | tail -5; fi
+  if [ $RC -gt $WORST ]; then WORST=$RC; fi
 done
+exit $WORST
